@@ -85,6 +85,9 @@ ADVERSARIAL = [
     "null", "None", "tmp", "objects", "refs/pids", "hashstore.yaml", "_delete", "a_delete", "con", "nul", "​", "a​b", "﻿bom", "a\x00b"[:1] + "b",
     "\x7f", "\x01\x02", "~", "~root", "a'b", 'a"b', "a<b>", "{}", "#", "a=b", "a,b", "a:b;c",
 ]
+# pairs of DIFFERENT identifiers that Unicode normalisation (of the string or of single characters) would identify
+EQUIVALENT_PAIRS = [("\u212b", "\u00c5"), ("x\u212a", "xK"), ("\u2126m", "\u03a9m"), ("e\u0301", "\u00e9"), ("\u1fbe", "\u03b9"), ("\ufb01", "fi"),
+                    ("\uff21", "A"), ("\u00b5", "\u03bc"), ("\u0340", "\u0300")]
 
 
 def adversarial_ids(rng, n):
@@ -179,6 +182,8 @@ def c15(run):
         for k, (d, w, a) in enumerate(configs):
             H = lambda b, a=a: hashlib.new(ALGOS[a], b).hexdigest()
             pids = rng.sample(ids, 4)
+            if k % 3 == 0:
+                pids[2] = os.path.join(base, "c%d" % k, "d1")      # an identifier that names an existing file: still an opaque string
             ns = rng.choice([DEFAULT_NS, "http://ns.example/v1", "ns"])
             fmt2 = rng.choice(["http://www.w3.org/ns/prov#", "fmt", pids[1], "a b"])
             data1 = os.urandom(rng.choice([0, 1, 100, 5000]))
@@ -310,6 +315,9 @@ def c18(run):
             fam = [basep, basep + "1", basep[:-1] or "z", basep.swapcase(), rng.choice(ids), rng.choice(ids)]
             fam = [x for x in dict.fromkeys(fam) if x and not any(ch.isspace() for ch in x)]
             group = rng.sample(fam, min(len(fam), rng.choice([2, 3])))
+            if g < len(EQUIVALENT_PAIRS):
+                group = list(EQUIVALENT_PAIRS[g]) + group[:1]
+                group = [x for x in dict.fromkeys(group)]
             fmt = rng.choice([None, "f", group[-1][:50], "../x", "a/b"])
             sub = os.path.join(base, "g%d" % g)
             os.makedirs(sub)
@@ -335,6 +343,21 @@ def c18(run):
             except Exception as e:  # noqa: BLE001
                 problems.append("setup raised %s for identifiers %r" % (exn_name(e), [x[:30] for x in group]))
             victim, bystanders = group[0], group[1:]
+            # an identifier nobody stored names nothing, whatever it looks like (a cid, a sharded path, a store-internal or outside file)
+            if not problems:
+                cidx = hashlib.sha256(data).hexdigest()
+                for probe in (cidx, "/".join(readme_shard(3, 2, cidx)), "../hashstore.yaml", os.path.join(root, "hashstore.yaml"), src,
+                              "objects/" + "/".join(readme_shard(3, 2, cidx))):
+                    if probe in group:
+                        continue
+                    try:
+                        s_ = hs.retrieve_object(probe)
+                        got_ = s_.read()
+                        s_.close()
+                        problems.append("retrieve_object(%r) for an identifier that was never stored returned %d bytes" % (probe[:40], len(got_)))
+                    except Exception as e:  # noqa: BLE001
+                        if exn_name(e) != "PidRefsDoesNotExist":
+                            problems.append("retrieve_object(%r) for an identifier that was never stored raised %s" % (probe[:40], exn_name(e)))
             # locations derive from hashes of the identifier STRINGS only (independent computation)
             if not problems:
                 cid = hashlib.sha256(data).hexdigest()
@@ -523,6 +546,15 @@ def c02(run):
                         run.violation({"kind": "value", "algorithm": alg}, "hex_digests[%s] is not the digest of the stored content (size %d)" % (alg, size), {"calls": calls})
                 if m.obj_size != size or m.cid != hashlib.sha256(data).hexdigest():
                     run.violation({"kind": "cid"}, "cid / size reported do not match the content", {"calls": calls})
+                # a rejected store for the SAME pid with other content (the pid is bound) must not change what get_hex_digest reports
+                if k % 2 == 1:
+                    other_src = os.path.join(sub, "other%d" % k)
+                    with open(other_src, "wb") as fh:
+                        fh.write(os.urandom(77))
+                    try:
+                        inst.store_object(pid, other_src, rng.choice([None] + CANON))
+                    except Exception:  # noqa: BLE001
+                        pass
                 # get_hex_digest under every algorithm and spelling
                 for alg in (CANON if k == 0 else rng.sample(CANON, 3)):
                     for sp in spellings(rng, alg, 2):
@@ -921,6 +953,42 @@ def c14(run):
                     if a not in ALGOS:
                         run.violation({"kind": "unsupported-accepted", "algorithm": a}, "a store was created with the unsupported store algorithm %r" % a, {"created_with": create})
             shutil.rmtree(sub, ignore_errors=True)
+        # ---- namespaces / values that a hand-made YAML writer would mangle: what was created must be what reopens, and nothing else
+        ODD_NS = ["http://ns.example.org/sysmeta #v2", "2.0", "yes", "null", "a: b", "'quoted'", "ns\ttab", "- item", "{x}", "~", "1e3", "http://x/y?z=1&w=2#frag", "Größe"]
+        for i, ns_ in enumerate(ODD_NS if not quick else rng.sample(ODD_NS, 6)):
+            sub = os.path.join(base, "odd%d" % i)
+            os.makedirs(sub)
+            root = os.path.join(sub, "store")
+            mk = lambda n_: {"store_path": root, "store_depth": 3, "store_width": 2, "store_algorithm": "SHA-256", "store_metadata_namespace": n_}
+            probs = []
+            try:
+                hs_ = F(mk(ns_))
+                src = os.path.join(sub, "doc")
+                with open(src, "wb") as fh:
+                    fh.write(b"<doc/>")
+                hs_.store_metadata("pid-odd", src)
+                try:
+                    hs2_ = F(mk(ns_))
+                    s_ = hs2_.retrieve_metadata("pid-odd")
+                    if s_.read() != b"<doc/>":
+                        probs.append("default-format document not served after reopen")
+                    s_.close()
+                except Exception as e:  # noqa: BLE001
+                    probs.append("reopening with the creation properties raised %s" % exn_name(e))
+                for wrong in (ns_ + " ", ns_.split(" ")[0] if " " in ns_ else ns_ + "x", ns_.upper() if ns_.upper() != ns_ else ns_ + "X"):
+                    if wrong == ns_:
+                        continue
+                    try:
+                        F(mk(wrong))
+                        probs.append("a store created with namespace %r was opened with %r" % (ns_, wrong))
+                    except Exception:  # noqa: BLE001
+                        pass
+            except Exception as e:  # noqa: BLE001
+                probs.append("creating a store with namespace %r raised %s" % (ns_, exn_name(e)))
+            run.case("search-odd-namespaces", ns_, sample={"search": "namespaces that are not plain YAML scalars", "namespace": ns_})
+            for pr in probs[:2]:
+                run.violation({"kind": "odd-namespace"}, "metadata namespace %r: %s" % (ns_, pr), {"namespace": ns_})
+            shutil.rmtree(sub, ignore_errors=True)
         # ---- histories at ONE path within one process: the store is removed and created again with another configuration;
         #      what pins the configuration is the hashstore.yaml that is there now, nothing remembered from earlier opens
         root = os.path.join(base, "reused", "store")
@@ -988,7 +1056,7 @@ def c01(run):
         open(probe, "wb").close()
         bsf = os.stat(probe).st_blksize          # buffer size the implementation sees for file-backed data
         bsm = 8192                               # ... and for in-memory streams (no .name)
-        kinds = ["str", "Path", "file", "file@mid", "file@end", "bytesio", "bytesio@mid", "bufreader"]
+        kinds = ["str", "Path", "file", "file@mid", "file@end", "bytesio", "bytesio@mid", "bufreader", "rwfile-unflushed", "file-path-replaced"]
         n = 0
         stores = {}
         for a in ALGOS:
@@ -1021,6 +1089,21 @@ def c01(run):
                 arg = src
             elif kind == "Path":
                 arg = Path(src)
+            elif kind == "rwfile-unflushed":
+                # a read/write binary stream whose content has been written but not flushed: the stream IS the data
+                rw = os.path.join(base, "rw-%d" % n)
+                stream = open(rw, "w+b")
+                stream.write(data)
+                stream.seek(0)
+                arg = stream
+            elif kind == "file-path-replaced":
+                # the stream was opened, then another file was renamed over its path: the stream still holds the original bytes
+                stream = open(src, "rb")
+                other_f = os.path.join(base, "other-%d" % n)
+                with open(other_f, "wb") as fh:
+                    fh.write(b"completely different content " * 3)
+                os.replace(other_f, src)
+                arg = stream
             elif kind.startswith("file"):
                 stream = RecordingReader(io.FileIO(src, "r"))
                 stream.seek(off)
@@ -1054,7 +1137,9 @@ def c01(run):
                     if got != want:
                         run.disagree("P-stream/chunks", replay, want[:6], got[:6], ["C01_chunks_concat", "C01_chunks_bounds"])
             # property oracle
-            cid = independent_digest(ALGOS[a], src, data)
+            cid = hashlib.new(ALGOS[a], data).hexdigest() if kind == "file-path-replaced" else independent_digest(ALGOS[a], src, data)
+            if kind == "rwfile-unflushed":
+                cid = hashlib.new(ALGOS[a], data).hexdigest()
             if m.cid != cid or m.obj_size != size:
                 run.violation({"kind": "cid-size", "data": kind}, "store_object reported cid/size %s.../%s for content of %d bytes whose %s digest is %s..." % (m.cid[:12], m.obj_size, size, a, cid[:12]), replay)
             try:
@@ -1072,7 +1157,8 @@ def c01(run):
                     run.violation({"kind": "stream-offset", "data": kind}, "the caller's stream (%s) was left at offset %d, it was supplied at %d" % (kind, stream.tell(), off), replay)
                 if not stream.closed:
                     stream.close()
-            os.remove(src)
+            if os.path.exists(src):
+                os.remove(src)
         # ---- histories of other calls between the store and the retrieve
         n_hist = 12 if quick else 150
         for hno in range(n_hist):
@@ -1127,6 +1213,20 @@ def c01(run):
                 try:
                     fn(q)
                     log.append(name.replace("q", q, 1) + " ok")
+                    # a store_object that RETURNED is a store of those bytes: the pid it names serves them at once
+                    if name.startswith("store_object(") and "None" not in name:
+                        who = "the-pid" if "the-pid" in name else q
+                        want_b = other if "other" in name else data
+                        try:
+                            s2 = hs.retrieve_object(who)
+                            got2 = s2.read()
+                            s2.close()
+                        except Exception as e2:  # noqa: BLE001
+                            got2 = "exn:" + exn_name(e2)
+                        if got2 != want_b:
+                            run.violation({"kind": "history-store-ok", "last": name}, "after [%s] the store_object that just returned success is not served back (retrieve_object(%s) gives %s)" % (
+                                "; ".join(log), who, str(got2)[:30]), {"algorithm": a, "size": len(data), "history": log})
+                            break
                 except Exception as e:  # noqa: BLE001
                     log.append(name.replace("q", q, 1) + " " + exn_name(e))
                 try:
@@ -1166,7 +1266,7 @@ def c19(run):
         for c in prefix:
             seq.decorate(rng, c)
         p, b = rng.choice([1, 2, 3]), rng.choice([7, 8])
-        mode = rng.choice(["absent", "correct", "correct", "wrongck", "wrongsz", "correct-nondefault", "wrongck-nondefault"])
+        mode = rng.choice(["absent", "correct", "correct", "wrongck", "wrongsz", "correct-nondefault", "wrongck-nondefault", "wrongck-other", "wrongboth"])
         pre = "nondefault" not in mode
         algo = rng.choice(ALG_PRE if pre else ALG_OTHER)
         case_ = rng.choice(["lower", "upper"])
@@ -1174,11 +1274,22 @@ def c19(run):
             sz, ck = "n", "n"
         elif mode.startswith("correct"):
             sz, ck = rng.choice(["o", "n"]), "o"
+        elif mode == "wrongboth":
+            sz, ck = "b", "b"
+        elif mode == "wrongck-other":
+            sz, ck = "n", "x"
         elif mode.startswith("wrongck"):
             sz, ck = rng.choice(["o", "n"]), "b"
         else:
             sz, ck = "b", "o"
         real = {"algo": algo, "case": case_}
+        if mode == "wrongck-other":
+            # the checksum supplied is the digest of the OTHER content, which is put into the store first (same length)
+            ob = 15 - b
+            prefix = prefix + [{"op": "so", "p": None, "b": ob, "n": 1}]
+            real["algo"] = "SHA-256"
+            real["other_data"] = Universe().content(ob, 1)
+            pre = True
         one = [dict(c) for c in prefix] + [{"op": "so", "p": p, "b": b, "n": 1, "sz": sz, "ck": ck, "real": dict(real)}]
         steps = [dict(c) for c in prefix] + [{"op": "so", "p": None, "b": b, "n": 1}]
         if ck != "n":
@@ -1240,7 +1351,7 @@ def c19(run):
                 if (ma.cid, ma.obj_size, {a_: ma.hex_digests[a_] for a_ in five}) != (mb.cid, mb.obj_size, {a_: mb.hex_digests[a_] for a_ in five}):
                     run.violation({"kind": "reports-differ"}, "the two procedures report different cid / size / default digests", replay)
         else:
-            want = "exn:NonMatchingObjSize" if mode == "wrongsz" else "exn:NonMatchingChecksum"
+            want = "exn:NonMatchingObjSize" if mode in ("wrongsz", "wrongboth") else "exn:NonMatchingChecksum"
             b1, _, _, _, _ = oracles.refs_of(st1)
             b2, _, _, _, _ = oracles.refs_of(st2)
             b0, l0, obj0, _, _ = oracles.refs_of(before)
@@ -1367,8 +1478,9 @@ def c20(run):
             sub = os.path.join(base, "k%d" % k)
             os.makedirs(sub)
             roots = []
+            store_ns = DEFAULT_NS if k % 2 == 0 else "http://other/ns"
             for nm in ("A", "B"):
-                hs, root = new_store(sub, name=nm)
+                hs, root = new_store(sub, name=nm, ns=store_ns)
                 hs.store_object("bound-pid", src)
                 hs.store_metadata("bound-pid", dsrc)
                 hs.store_metadata("bound-pid", dsrc, "fmt2")
@@ -1379,7 +1491,7 @@ def c20(run):
             # ---- correspondence with the model's option -> call mapping
             enc = lambda o: "N" if o not in opts else "S" + hx(opts[o])
             flags = "".join("1" if f == verb else "0" for f in VERB_FLAGS)
-            gm = layerA(["client 1 %s %s %s %s %s %s %s %s %s" % (hx(DEFAULT_NS), enc("-pid"), enc("-path"), enc("-algo"), enc("-checksum"),
+            gm = layerA(["client 1 %s %s %s %s %s %s %s %s %s" % (hx(store_ns), enc("-pid"), enc("-path"), enc("-algo"), enc("-checksum"),
                                                                    enc("-checksum_algo"), enc("-obj_size"), enc("-formatid"), flags)])[0]
             api_calls = [c for c in calls if c[0] == VERB_API[verb]]
             if api_calls:
@@ -1398,8 +1510,8 @@ def c20(run):
             # ---- property oracle: same effect and same report as the API call with those values (independent mapping)
             size = opts.get("-obj_size")
             api_exn, api_ret = None, None
-            hsB = F({"store_path": rootB, "store_depth": 3, "store_width": 2, "store_algorithm": "SHA-256", "store_metadata_namespace": DEFAULT_NS})
-            fmt = opts.get("-formatid", DEFAULT_NS)
+            hsB = F({"store_path": rootB, "store_depth": 3, "store_width": 2, "store_algorithm": "SHA-256", "store_metadata_namespace": store_ns})
+            fmt = opts.get("-formatid", store_ns)
             need = {"-getchecksum": ["-pid", "-algo"], "-storeobject": ["-pid", "-path"], "-storemetadata": ["-pid", "-path"]}.get(verb, ["-pid"])
             skip_api = any(o not in opts for o in need)
             size_int = None
@@ -1471,6 +1583,21 @@ def c20(run):
                               {"props": [d, w, a, ns]})
             if not ok_algo and exn is None:
                 run.violation({"kind": "create-unsupported"}, "client created a store with unsupported algorithm %s" % a, {"props": [d, w, a, ns]})
+            # a second -chs on the existing store with conflicting properties is refused, exactly as the API refuses it
+            if ok_algo and exn is None:
+                d2_ = d + 1
+                before_ = tree(root)
+                out2, exn_c, _ = run_client([root, "-chs", "-dp=%d" % d2_, "-wp=%d" % w, "-ap=" + a, "-nsp=" + ns])
+                try:
+                    F(dict(props, store_depth=d2_))
+                    api_c = None
+                except Exception as e:  # noqa: BLE001
+                    api_c = exn_name(e)
+                after_ = {p_: v_ for p_, v_ in tree(root).items() if not p_.endswith(".log")}
+                before_ = {p_: v_ for p_, v_ in before_.items() if not p_.endswith(".log")}
+                if exn_c != api_c or after_ != before_:
+                    run.violation({"kind": "create-again"}, "-chs on an existing store with a different depth: client %s, API %s%s" % (exn_c, api_c, "" if after_ == before_ else "; the store changed"),
+                                  {"props": [d, w, a, ns], "second_depth": d2_})
             # vice versa
             root2 = os.path.join(sub, "st2")
             props["store_path"] = root2
